@@ -740,6 +740,15 @@ def run(ctx):
                 bank_goals(ctx, F, S, np, cfg, bank, G)
             except Exception as e:  # noqa: BLE001
                 bad.append(("observation_failed", dict(config=short(cfg), error="%s: %s" % (type(e).__name__, e))))
+    # corner configurations that random choice reaches too rarely: every gammatone order
+    # 1..3 x {causal, max_centered} with unit L2 norm (order 1 has a non-vanishing onset)
+    for order in (1, 2, 3):
+        for mc in (False, True):
+            cfg = gen_config(ctx, cls="gammatone", scale="mel")
+            cfg.update(order=order, mc=mc, l2=True, erb=bool(order % 2), n=5, low=20.0, high=None, scale=scale_of(ctx, "mel", 20.0))
+            if is_valid(cfg):
+                ctx.count("bank:corner-gammatone-order%d" % order)
+                check_bank(ctx, F, S, np, cfg, bad, deep=True)
     ctx.log("searched %d banks, %d certification goals so far" % (nb, len(G.items)))
     # ---- range test
     ranges = [gen_range(ctx) for _ in range(ctx.scale(240, 2400))]
